@@ -18,7 +18,8 @@ import (
 )
 
 type params struct {
-	// per address: "ok" (establishes, honours ctx), "fail", "lateok" (establishes even after ctx is cancelled, as a
+	// per address: "ok" (establishes, honours ctx), "fail", "failctx" (fails with an error that wraps a context error although the
+	// caller's context is alive: a dialer with its own per-attempt timeout), "lateok" (establishes even after ctx is cancelled, as a
 	// dialer whose connect already succeeded in the kernel does), "hang" (completes only with ctx's error)
 	Dials  []string `json:"dials"`
 	Cancel bool     `json:"cancel"` // the caller cancels at an arbitrary point
@@ -68,7 +69,7 @@ func body(p params, o *sx.Obs) {
 		kind := p.Dials[i]
 		o.Log("dial-begin %d", i)
 		switch kind {
-		case "ok", "fail":
+		case "ok", "fail", "failctx":
 			vsched.Cond(fmt.Sprintf("dial%d", i), func() bool { return decided[i] || ctxDone(ctx) })
 			if !decided[i] {
 				o.Log("dial-ctx %d", i)
@@ -84,6 +85,10 @@ func body(p params, o *sx.Obs) {
 		if kind == "fail" {
 			o.Log("dial-fail %d", i)
 			return nil, dialErr{i}
+		}
+		if kind == "failctx" {
+			o.Log("dial-fail %d", i)
+			return nil, fmt.Errorf("dial attempt timed out: %w (%w)", context.DeadlineExceeded, dialErr{i})
 		}
 		conns[i] = &fconn{id: i, o: o}
 		o.Log("established c%d", i)
@@ -196,7 +201,7 @@ func check(p params, o *sx.Obs, x *vsched.Sched) kit.Result {
 		if !p.Cancel {
 			// no cancellation: an error is only allowed when every address failed, and must combine all failures
 			for i, k := range p.Dials {
-				if k != "fail" {
+				if k != "fail" && k != "failctx" {
 					return kit.Bad("error-despite-success", "resolver failed although address %d (%s) can be established and nobody cancelled", i, k)
 				}
 				if !contains(strings.Split(dialerrs, ","), fmt.Sprint(i)) {
@@ -225,6 +230,8 @@ func main() {
 		}
 		rec(nil, 2)
 		scs = append(scs, params{[]string{"hang", "ok"}, false}, params{[]string{"hang", "hang"}, true}, params{[]string{"hang", "fail"}, true})
+		scs = append(scs, params{[]string{"failctx", "fail"}, false}, params{[]string{"fail", "failctx"}, false}, params{[]string{"failctx", "failctx"}, false},
+			params{[]string{"failctx", "ok"}, false}, params{[]string{"failctx", "lateok"}, true})
 		three := [][]string{{"ok", "ok", "ok"}, {"fail", "fail", "fail"}, {"fail", "ok", "lateok"}, {"lateok", "lateok", "fail"}, {"ok", "fail", "hang"}}
 		for _, d := range three {
 			scs = append(scs, params{d, false}, params{d, true})
@@ -233,7 +240,7 @@ func main() {
 			scs = append(scs, params{[]string{"ok", "lateok", "fail", "ok"}, true}, params{[]string{"fail", "fail", "fail", "lateok"}, false})
 		}
 		mk := func(p params) sx.Scenario[params] {
-			fb := 4
+			fb := 3
 			if c.Thorough() {
 				fb = 6
 			}
@@ -248,8 +255,8 @@ func main() {
 			bound = 3
 		}
 		c.Rule("real dcs.Plain resolver (instrumented telegram/dcs) with a fake dialer whose completions are environment events: 2-3 (thorough 4) "+
-			"addresses x outcome {ok, fail, late ok after cancellation, hang} x optional caller cancel; every schedule with <= %d preemptions (3-address "+
-			"scenarios one less in quick) and at most 4 (thorough 6) non-default choices among the cost-free ones (thread order at blocking points); oracle at quiescence: exactly one of {connection, error}; with a connection exactly that one stays open and every "+
+			"addresses x outcome {ok, fail, fail with an error wrapping a context error, late ok after cancellation, hang} x optional caller cancel; every schedule with <= %d preemptions (3-address "+
+			"scenarios one less in quick) and at most 3 (thorough 6) non-default choices among the cost-free ones (thread order at blocking points); oracle at quiescence: exactly one of {connection, error}; with a connection exactly that one stays open and every "+
 			"other established connection was closed; with an error none stays open; without cancellation an error only if all dials failed and it includes each failure.", bound)
 		if c.Fork(len(scs), 16) {
 			return
